@@ -108,7 +108,7 @@ def mutate(cls, m):
         arr = part_array(y, cat, m['part'])
         flat = np.asarray(arr).reshape(-1)
         scale = max(float(np.linalg.norm(flat)), tol)
-        idx = {'first': 0, 'mid': len(flat) // 2, 'last': len(flat) - 1}[m['pos']]
+        idx = {'first': 0, 'mid': len(flat) // 2, 'last': len(flat) - 1}[m['pos']] if m['pos'] in ('first', 'mid', 'last') else int(m['pos']) % len(flat)
         view = np.asarray(arr)
         view.reshape(-1)[idx] += 10.0 ** m['e'] * tol * scale
         return y
@@ -175,8 +175,15 @@ def mutate(cls, m):
 
 
 def check(run):
-    cfg = 'SPECIFICATION Spec\nINVARIANT Total\n'
-    res = tlc.run('EqModel', cfg, dump=True, timeout=1800)
+    if run.tier == 'thorough':
+        # every exponent from 1e-12 to 1e3 times the tolerance, and many more component positions
+        mc = ('---- MODULE MC_C17 ----\nEXTENDS EqModel\nExpT == -12..3\nPosT == {"first", "mid", "last"} \\cup {%s}\n====\n'
+              % ', '.join('"%d"' % i for i in range(0, 49, 3)))
+        cfg = 'SPECIFICATION Spec\nCONSTANTS\n Exponents <- ExpT\n Positions <- PosT\nINVARIANT Total\n'
+        res = tlc.run('MC_C17', cfg, mc_text=mc, dump=True, timeout=1800)
+    else:
+        cfg = 'SPECIFICATION Spec\nINVARIANT Total\n'
+        res = tlc.run('EqModel', cfg, dump=True, timeout=1800)
     try:
         if res.violation:
             raise tlc.TLCError('model invariant %s violated' % res.violation)
